@@ -19,7 +19,7 @@ Proof. exact load_raw_same_bytes. Qed.
 (* a corrupted cached copy of an auto-cached file is detected, removed and replaced by the backend's bytes *)
 Theorem C38_corrupt_cache_healed : forall (hash_ok : bytes -> bool) t C B pre rest,
   auto_cache t = true -> hash_ok C = false -> hash_ok B = true ->
-  load_raw hash_ok t (mkSt (Some C) false) no_renv (mkCall pre (Some B) ENone :: rest)
+  load_raw hash_ok t (mkSt (Some C) false) no_renv (mkCall pre (Some B) ENone false :: rest)
   = (ROk B, mkSt (Some B) true, rest, true).
 Proof. exact corrupt_cache_healed. Qed.
 
@@ -44,8 +44,16 @@ Proof. exact load_clean_transparent. Qed.
 Theorem C38_oracle_sound : forall c,
   check_C38 c = true <->
   raw_ok (c_truth c) (c_ops c) (c_obs c) = true
-  /\ clean_prefix_ok (c_truth c) (cache_clean (c_truth c) (c_cache0 c)) (c_ops c) (c_obs c) = true.
+  /\ clean_prefix_ok (c_truth c) (cache_clean (c_truth c) (c_cache0 c)) (c_ops c) (c_obs c) = true
+  /\ heal_ok (c_truth c) (c_type c) (mkSt (c_cache0 c) false) (c_ops c) (c_obs c) = true.
 Proof. exact check_C38_iff. Qed.
+
+(* healing from ANY cache content: with an unspent breaker and a backend that serves the true
+   content twice, LoadRaw answers the repository's bytes *)
+Theorem C38_raw_heals_any_cache : forall truth t c k1 k2 rest,
+  t <> TConfig -> call_clean truth k1 = true -> call_clean truth k2 = true ->
+  exists st' s' rm, load_raw (bytes_eqb truth) t (mkSt c false) no_renv (k1 :: k2 :: rest) = (ROk truth, st', s', rm).
+Proof. exact raw_heals. Qed.
 
 Theorem C38_oracle_raw_meaning : forall truth ops obs,
   raw_ok truth ops obs = true ->
@@ -57,6 +65,27 @@ Theorem C38_model_satisfies_raw_clause : forall truth t, t <> TConfig ->
   forall ops st, raw_ok truth ops (run_ops truth t st ops) = true.
 Proof. exact model_raw_ok. Qed.
 
+(* honest environment (cache and other processes only ever show the true content or delete it;
+   backend calls serve it, fail, or fail late after streaming a prefix): every ranged Load, for
+   every type, range, cache state and script, returns the backend's range or an error -- never other
+   bytes -- and leaves the cache clean *)
+Theorem C38_load_honest_env : forall truth t len off c p1 script r c' rest,
+  cache_clean truth c = true -> env_clean truth p1 = true -> forallb (call_honest truth) script = true ->
+  load t len off c p1 script = (r, c', rest) ->
+  res_fine truth len off r /\ cache_clean truth c' = true /\ forallb (call_honest truth) rest = true.
+Proof. exact load_honest. Qed.
+
+(* whole operation sequences (LoadRaw and ranged Loads mixed, interference before every op): the
+   transparency clause of the oracle holds for the model on every sequence, from every clean start *)
+Theorem C38_clean_sequences_transparent : forall truth t ops st clean,
+  (clean = true -> cache_clean truth (s_cache st) = true) ->
+  clean_prefix_ok truth clean ops (run_ops truth t st ops) = true.
+Proof. exact model_clean_ok. Qed.
+
+Theorem C38_model_satisfies_oracle : forall truth t c0 ops, t <> TConfig ->
+  check_C38 (mk t truth c0 ops (run_ops truth t (mkSt c0 false) ops)) = true.
+Proof. exact model_satisfies_oracle. Qed.
+
 Print Assumptions C38_cached_load_sound.
 Print Assumptions C38_load_same_bytes_or_fail.
 Print Assumptions C38_corrupt_cache_healed.
@@ -65,3 +94,7 @@ Print Assumptions C38_clean_cache_transparent.
 Print Assumptions C38_oracle_sound.
 Print Assumptions C38_oracle_raw_meaning.
 Print Assumptions C38_model_satisfies_raw_clause.
+Print Assumptions C38_load_honest_env.
+Print Assumptions C38_clean_sequences_transparent.
+Print Assumptions C38_model_satisfies_oracle.
+Print Assumptions C38_raw_heals_any_cache.
